@@ -148,6 +148,24 @@ def run(ctx, rep):
         stamps = [(b, t) for b, t in U.calls() if (t.get('callee') or '') == EDITOR + '::set_modified']
         clock = [b for b, t in U.calls() if (t.get('callee') or '').endswith('TimeProvider::get_current_date_time')]
         ok2 = bool(stamps) and all(any(('callsite', c) in d.of_operand(t['args'][1]) for c in clock) for b, t in stamps)
+        # ... and the stamp is unconditional for a file that has an entry: no path through the `entry is Some` arm of
+        # the update reaches its return without set_modified (whether or not the write extended the file)
+        if ok2:
+            from analyses import switch_source
+            some_targets = []
+            for bi in U.reachable():
+                tt = U.blocks[bi]['term']
+                if tt['k'] == 'switch':
+                    src = switch_source(U, bi)
+                    if src and src['kind'] == 'discr' and [e.get('n') for e in src['place']['p'] if 'f' in e][-1:] == ['entry']:
+                        some_targets += [x for v, x in tt['targets'] if v == 1]
+            cut_st = {(b, x) for b, t in stamps for x in U.succ(b)}
+            if some_targets:
+                r2 = U.reach_from(some_targets, cut_edges=cut_st)
+                if any(r in r2 for r in U.return_blocks()):
+                    ok2 = False
+            else:
+                ok2 = False
         rep.oblige('R18.3', W.name, ok=not bad and ok2, nontrivial=True)
         if bad or not ok2:
             rep.violation('R18.3', vkey('R18.3', W.name, 'stamp-on-write', ''), W.loc(W.span),
